@@ -16,7 +16,9 @@ subprocess.run(["git", "-C", "/repo", "worktree", "remove", "--force", wt], capt
 subprocess.run(["git", "-C", "/repo", "worktree", "add", "-q", wt, "HEAD"], check=True)
 env = dict(os.environ, PYTHONPATH=wt + "/src")
 def run(cmd, cwd=wt, timeout=600):
-    p = subprocess.run(cmd, cwd=cwd, env=env, capture_output=True, text=True, timeout=timeout)
+    # (a background job of a non-interactive shell inherits SIGINT ignored; cobald's own tests raise SIGINT and would wait for ever)
+    import signal
+    p = subprocess.run(cmd, cwd=cwd, env=env, capture_output=True, text=True, timeout=timeout, preexec_fn=lambda: signal.signal(signal.SIGINT, signal.default_int_handler))
     return p.returncode, (p.stdout + p.stderr)
 meta = {"property": prop, "name": name}
 try:
